@@ -390,9 +390,29 @@ int FUNC(verify)(jwt_common_t *__cmd, const char *token)
 	config.ctx = __cmd->c.cb_ctx;
 
 	/* Let the user handle this and update config */
-        if (__cmd->c.cb && __cmd->c.cb(jwt, &config)) {
-		jwt_write_error(__cmd, "User callback returned error");
-		return 1;
+	if (__cmd->c.cb) {
+		/* Whatever the callback does to the jwt_t, we verify what
+		 * was parsed from the token. */
+		json_t *claims = json_deep_copy(jwt->claims);
+		json_t *headers = json_deep_copy(jwt->headers);
+		int cb_ret = __cmd->c.cb(jwt, &config);
+
+		json_decref(jwt->claims);
+		json_decref(jwt->headers);
+		jwt->claims = claims;
+		jwt->headers = headers;
+
+		if (cb_ret) {
+			jwt_write_error(__cmd, "User callback returned error");
+			return 1;
+		}
+
+		if (claims == NULL || headers == NULL) {
+			// LCOV_EXCL_START
+			jwt_write_error(__cmd, "Error allocating memory");
+			return 1;
+			// LCOV_EXCL_STOP
+		}
 	}
 
 	/* Callback may have changed this */
